@@ -179,7 +179,14 @@ func assembled(v variant, nBeforeMax, nw int) {
 	}
 	nBefore := verif.Choose("writesBeforeStart", nBeforeMax+1)
 	for i := 0; i < nBefore; i++ {
-		write(ctx, st, v.twoPrimary)
+		write(ctx, st, v.twoPrimary || v.mapped)
+	}
+	// versions of the mapped kind at start: mapped inputs have no start-up listing, only later changes count
+	bAtStart := map[string]uint64{}
+	for _, id := range ids {
+		if b, berr := st.Get(ctx, resource.NewMetadata(tres.NS, tres.TypeB, id, resource.VersionUndefined)); berr == nil {
+			bAtStart[id] = b.Metadata().Version().Value()
+		}
 	}
 	go rt.Run(ctx) //nolint:errcheck
 	up := false // the runtime has settled at least once since start (its watches are established)
@@ -215,7 +222,7 @@ func assembled(v variant, nBeforeMax, nw int) {
 			if nBefore > 0 {
 				verif.Cover("second primary kind pre-existing")
 			}
-		} else if berr == nil {
+		} else if berr == nil && b.Metadata().Version().Value() != bAtStart[id] {
 			verif.Assert(qc.lastMapped[id] == b.Metadata().Version().Value(), "a mapped input change reaches the mapper with the current state")
 			verif.Cover("mapped input seen")
 		}
@@ -223,6 +230,14 @@ func assembled(v variant, nBeforeMax, nw int) {
 			cr, cerr := rt.CachedState().Get(ctx, resource.NewMetadata(tres.NS, tres.TypeA, id, resource.VersionUndefined))
 			verif.Assert((cerr == nil) == cur.found && (cerr != nil || cr.Metadata().Version().Value() == cur.version), "when the system is quiet cached reads equal uncached reads")
 			verif.Cover("cached kind")
+			// the cached state evaluates list options like the uncached one
+			kindA := resource.NewMetadata(tres.NS, tres.TypeA, "", resource.VersionUndefined)
+			cl, clerr := rt.CachedState().List(ctx, kindA, state.WithLabelQuery(resource.LabelExists("no-such-label")))
+			ul, ulerr := st.List(ctx, kindA, state.WithLabelQuery(resource.LabelExists("no-such-label")))
+			verif.Assert(clerr == nil && ulerr == nil && len(cl.Items) == len(ul.Items), "a selector-filtered cached List equals the uncached one when the system is quiet")
+			call, _ := rt.CachedState().List(ctx, kindA)
+			uall, _ := st.List(ctx, kindA)
+			verif.Assert(len(call.Items) == len(uall.Items), "an unfiltered cached List equals the uncached one when the system is quiet")
 		}
 	}
 	if nBefore > 0 {
@@ -268,7 +283,7 @@ func H_AssembledKinds() {
 		v.twoPrimary = true
 	}
 	nBefore := 0
-	if v.destroyReady || v.cached || v.dynamic || v.twoPrimary {
+	if v.destroyReady || v.cached || v.dynamic || v.twoPrimary || v.mapped {
 		nBefore = 1
 	}
 	assembled(v, nBefore, nw+b2i(v.mapped || v.destroyReady || v.dynamic))
